@@ -13,8 +13,10 @@ pub mod c11;
 pub mod c12;
 pub mod c13;
 pub mod c14;
+pub mod c15;
 pub mod c16;
 pub mod c17;
+pub mod c19;
 
 #[derive(Clone, Debug)]
 pub struct Ctx {
@@ -48,9 +50,11 @@ pub fn run(id: &str, ctx: &Ctx) -> i32 {
         "C12" => c12::run(ctx),
         "C13" => c13::run(ctx),
         "C14" => c14::run(ctx),
+        "C15" => c15::run(ctx),
         "C16" => c16::run16(ctx),
         "C17" => c17::run17(ctx),
         "C18" => c17::run18(ctx),
+        "C19" => c19::run(ctx),
         _ => {
             eprintln!("unknown property {id}");
             2
